@@ -61,7 +61,7 @@ def std_frame(n_hours=3, underlying=(2000.0, 2010.0, 1995.0), start=T0, books=No
             asks = [[round(p + shift, 6), a] for p, a in b["asks"]]
             bids = [[round(p + shift, 6), a] for p, a in b["bids"]]
             instrs.append(instrument(name, b["kind"], b["strike"], b.get("expiry", expiry), round(b["mark"] + shift, 6),
-                                     underlying[h % len(underlying)], asks, bids))
+                                     underlying[h % len(underlying)] * b.get("basis", 1.0), asks, bids))  # basis: this expiry is quoted against ITS OWN underlying (future)
         hours.append((ts, instrs))
     return frame(hours)
 
